@@ -107,6 +107,17 @@ class Signal(np.lib.mixins.NDArrayOperatorsMixin):
 
         out_arr = tuple((i.data if isinstance(i, Signal) else i) for i in out)
 
+        # Dask cannot write into an out= array: it re-points that array at
+        # the result, dtype included (and some Dask ufuncs take no out=).
+        # For Dask-backed signals given as out=, follow NumPy instead: the
+        # result is cast to the signal's dtype, or refused, and then becomes
+        # the signal's data.
+        lazy = tuple(
+            isinstance(i, Signal) and isinstance(a, dask.array.Array)
+            for i, a in zip(out, out_arr)
+        )
+        out_arr = tuple(None if f else a for a, f in zip(out_arr, lazy))
+
         results = ufunc(*in_arr, out=out_arr, **kwargs)
 
         if results is NotImplemented:
@@ -114,6 +125,27 @@ class Signal(np.lib.mixins.NDArrayOperatorsMixin):
 
         if ufunc.nout == 1:
             results = (results,)
+
+        if any(lazy):
+            casting = kwargs.get("casting", "same_kind")
+            for a, b, f in zip(results, out, lazy):
+                if f and a.shape != b.shape:
+                    raise ValueError(
+                        f"non-broadcastable output operand with shape {b.shape} "
+                        f"doesn't match the broadcast shape {a.shape}"
+                    )
+                if f and not np.can_cast(a.dtype, b.dtype, casting=casting):
+                    raise TypeError(
+                        f"Cannot cast ufunc '{ufunc.__name__}' output from "
+                        f"{a.dtype!r} to {b.dtype!r} with casting rule '{casting}'"
+                    )
+            where = kwargs.get("where", True)
+            for a, b, f in zip(results, out, lazy):
+                if f:
+                    a = a.astype(b.dtype)
+                    if where is not True:
+                        a = dask.array.where(where, a, b.data)
+                    b._data = type(b).like(b, a).data
 
         results = tuple(
             (type(self).like(self, a) if b is None else b) for a, b in zip(results, out)
